@@ -613,7 +613,8 @@ def run(ck):
         if key in reported:
             return
         reported.add(key)
-        ck.violation(key, what, rep, found)
+        # keys are matched against known_findings.txt: no white space
+        ck.violation("-".join(key.split()), what, rep, found)
 
     for i, (o, s, exp, kinds, origin) in enumerate(reqs):
         a, m = impl[i] or "missing", model[i]
